@@ -24,6 +24,11 @@ func (it *Iterator) SeekToFirst() {
 	it.mu.Lock()
 	defer it.mu.Unlock()
 
+	it.seekToFirstLocked()
+}
+
+// seekToFirstLocked is SeekToFirst for callers that already hold it.mu
+func (it *Iterator) seekToFirstLocked() {
 	// Reset error state
 	it.err = nil
 
@@ -138,8 +143,8 @@ func (it *Iterator) Next() bool {
 	defer it.mu.Unlock()
 
 	if !it.initialized {
-		it.SeekToFirst()
-		return it.Valid()
+		it.seekToFirstLocked()
+		return it.initialized && it.dataBlockIter != nil && it.dataBlockIter.Valid()
 	}
 
 	if it.dataBlockIter == nil {
